@@ -8,6 +8,7 @@ run — the check demands it whenever the C++ step raised no FE_INEXACT).
 import SharkVerif.Model.GradOpt
 import SharkVerif.Model.Objectives
 import SharkVerif.Model.LineSearches
+import SharkVerif.Model.TrustRegion
 import SharkVerif.Gen.LbfgsBox
 open SharkVerif.Opt
 
@@ -134,6 +135,7 @@ structure XSt where
   minI : Float := 0
   maxI : Float := 1
   cur : Option (LSOpt Float) := none
+  tcur : Option (TRN Float) := none
 
 def takeN (n : Nat) (l : List Float) : List Float × List Float := (l.take n, l.drop n)
 
@@ -242,6 +244,26 @@ def xstep (o : Objective Float) (x : XSt) (h : LSOpt Float) (isInit : Bool) (bx 
       let n := LSOpt.computeSearchDirection a'
       verdict (common ++ [("dir", cmpVec n.dir h.dir), ("model", cmpVec (modelNums n.model) (modelNums h.model))])
 
+/-- parse the flat `st=` field of a TrustRegionNewton state -/
+def parseTrn (t : String) : Option (TRN Float) := do
+  match t.splitOn "," with
+  | [] => none
+  | d :: rest =>
+    let n ← d.toNat?
+    let xs ← (rest.mapM parseBits).map (·.map Float.ofBits)
+    if xs.length != 2 * n + 3 + n * n then none else
+    let (pt, xs) := takeN n xs
+    let val := xs.headD 0; let xs := xs.drop 1
+    let (g, xs) := takeN n xs
+    let delta := xs.headD 0; let mir := (xs.drop 1).headD 0; let xs := xs.drop 2
+    some { delta := delta, minImprovementRatio := mir, best := ⟨pt, val⟩, gradient := g, hessian := chunk n xs }
+
+def trnFields (m h : TRN Float) : List (String × Nat) :=
+  [("point", cmpVec m.best.point h.best.point), ("value", cmpNum m.best.value.abs m.best.value h.best.value),
+   ("g", cmpVec m.gradient h.gradient), ("delta", cmpNum 0 m.delta h.delta),
+   ("minImprovementRatio", cmpNum 0 m.minImprovementRatio h.minImprovementRatio),
+   ("hessian", cmpVec m.hessian.flatten h.hessian.flatten)]
+
 /-! ### protocol -/
 
 structure St where
@@ -349,6 +371,21 @@ def step (s : St) (line : String) : St × String :=
     match s.fl.best with
     | none => (s, "bad-op")
     | some _ => ({ s with fl := s.fl.saveRestore dblMax, rt := if s.ratOk then s.rt.saveRestore dblMaxRat else s.rt }, "saved")
+  | ["xtrn", op, st] =>
+    match parseTrn st with
+    | none => (s, "bad-op")
+    | some h =>
+      let o := s.fl.obj
+      let hess := mkHessian s.fl.kind s.fl.A
+      let out :=
+        if op == "init" then
+          -- delta and minImprovementRatio are configuration (arguments of init / set after it): adopted
+          let m := { TRN.init o hess h.best.point h.delta with minImprovementRatio := h.minImprovementRatio }
+          verdict (trnFields m h)
+        else match s.x.tcur with
+          | none => "bad-op"
+          | some cur => verdict (trnFields (TRN.step Float.sqrt o hess cur) h)
+      ({ s with x := { s.x with tcur := some h } }, out)
   | [op, st, bx] =>
     if op != "xstep" then (s, "bad-op") else
     match parseSt s.x.kind s.x.numHist st, (bx.splitOn ",").mapM parseBits with
